@@ -16,6 +16,8 @@ try:
     stem = os.path.splitext(os.path.basename(dest))[0]
     pkg = dest.split("/")[1]
     feat = " --features preserve_order" if "--features preserve_order" in demo else (" --features perf" if "--features perf" in demo else "")
+    if "--no-default-features --features parse" in demo:
+        feat = " --no-default-features --features parse"
     if "/examples/" in dest:
         run = "cargo run -q -p %s --example %s --offline%s" % (pkg, stem, feat)
     else:
